@@ -1091,4 +1091,27 @@ theorem old_user_volume_lost :
     ((⟨exSA, some (pT fun t => [7 * t])⟩ : UDom Rat).pevalOld [("t", [1])]).volume (fun _ _ => some 28) [] = some 28 := by
   refine ⟨by decide +kernel, by decide +kernel, by decide +kernel⟩
 
+/-! ## 8. supplying a variable again (a Python default of the user's function, or a value of an earlier call) -/
+
+/-- the interval `[0, t·s]` and `[0, t·k]` -/
+def pTS (a b : String) : PFun Rat :=
+  ⟨[a, b], fun e => match e.get a, e.get b with | some [x], some [y] => [x * y] | _, _ => []⟩
+def exTS : Dom Rat := .interval "y" (.const [0]) (pTS "t" "s")
+def exTK : Dom Rat := .interval "y" (.const [0]) (pTS "t" "k")
+
+/-- **The later value wins as long as the function is not yet a constant** (as coded: `partially_evaluate`
+    builds the call from the given arguments first, the stored defaults only fill the rest):
+    `D(t=1)(t=2, s=3)` is `[0, 6]`, not `[0, 3]`; with the Python default `k = 2` of `def upper(t, k=2)`,
+    `D(t=3, k=5)` is `[0, 15]`, not `[0, 6]` — exactly what supplying the same values as parameter rows gives
+    (`D(t=1)` at the row `t=2, s=3`; `D` at the row `t=3, k=5`). -/
+theorem resupply_later_wins :
+    contains τ0 ((exTS.pevalC [("t", [1])]).pevalC [("t", [2]), ("s", [3])]) [("y", [5])] [] = some true ∧
+    contains τ0 ((exTS.pevalC [("t", [1])]).pevalC [("t", [2]), ("s", [3])]) [("y", [7])] [] = some false ∧
+    contains τ0 (exTS.pevalC [("t", [1])]) [("y", [5])] [("t", [2]), ("s", [3])] = some true ∧
+    contains τ0 ((exTK.peval [("k", [2])]).pevalC [("t", [3]), ("k", [5])]) [("y", [14])] [] = some true ∧
+    contains τ0 ((exTK.peval [("k", [2])]).pevalC [("t", [3]), ("k", [5])]) [("y", [16])] [] = some false ∧
+    contains τ0 (exTK.peval [("k", [2])]) [("y", [14])] [("t", [3]), ("k", [5])] = some true ∧
+    ((exTK.peval [("k", [2])]).freeVars = ["t"]) := by
+  refine ⟨by decide +kernel, by decide +kernel, by decide +kernel, by decide +kernel, by decide +kernel, by decide +kernel, by decide⟩
+
 end TPV.Geom
